@@ -25,19 +25,25 @@
 (* and stays at its initial value.  The properties are those of the design   *)
 (* spec, unchanged.                                                          *)
 (***************************************************************************)
-EXTENDS UserTracking, Json, IOUtils
+EXTENDS UserTracking, Integers, Json, IOUtils
 
 CONSTANTS NetErrorDelay,   \* ms: retry after a send error / no answer (RETRY_TIMEOUT_NET_ERROR)
-          NoUserDelay      \* ms: retry after "user does not exist" (RETRY_TIMEOUT_NON_EXISTING_USER)
+          NoUserDelay,     \* ms: retry after "user does not exist" (RETRY_TIMEOUT_NON_EXISTING_USER)
+          AnswerWaitMax,   \* ms: upper bound on how long an AddUser may stay unanswered before it counts as failed
+          Slack            \* ms: tolerance of the bounded-time statements
 
 Traces == JsonDeserialize(IOEnv.TRACE_FILE)
 
 VARIABLES tid, l,
           failT,     \* [Users -> ms] when the latest failed attempt was reported
           closing,   \* the connection is being broken
-          lastRetry  \* <<u, t, due>> of the last frame classified as a retry, or <<>>
+          lastRetry, \* <<u, t, due>> of the last frame classified as a retry, or <<>>
+          now,       \* time of the last record
+          dueBy      \* [Users -> ms | -1] while the server is supposed to track u and has not confirmed it:
+                     \* the time by which the next AddUser has to be on the wire
 
-tvars == <<vars, tid, l, failT, closing, lastRetry>>
+tvars == <<vars, tid, l, failT, closing, lastRetry, now, dueBy>>
+NoDue == [u \in Users |-> -1]
 
 T == Traces[tid]
 Rec == T[l]
@@ -51,9 +57,11 @@ TInit ==
   /\ failT = [u \in Users |-> 0]
   /\ closing = FALSE
   /\ lastRetry = <<>>
+  /\ now = 0
+  /\ dueBy = NoDue
 
 IsEv(e) == l <= Len(T) /\ Rec.ev = e
-Consume == l' = l + 1 /\ UNCHANGED tid
+Consume == l' = l + 1 /\ now' = Rec.t /\ UNCHANGED tid
 \* not observable
 Hidden == UNCHANGED <<U, ready, ncalls, nfaults, ncloses>>
 \* between two drained points nothing is claimed about flags/state
@@ -63,7 +71,7 @@ TCall ==
   /\ IsEv("call") /\ Rec.u \in Users /\ Rec.f \in Flags /\ Rec.op \in {"add", "rem"}
   /\ ~closing
   /\ ref' = RefCall(ref, Rec.u, Rec.op, Rec.f)
-  /\ UNCHANGED <<serverLog, failT, closing, lastRetry>>
+  /\ UNCHANGED <<serverLog, failT, closing, lastRetry, dueBy>>
   /\ Busy /\ Hidden /\ Consume
 
 TFrame ==
@@ -73,6 +81,9 @@ TFrame ==
                     THEN <<Rec.u, Rec.t, failT[Rec.u] + (IF ref.attempt[Rec.u] = "f600" THEN NoUserDelay ELSE NetErrorDelay)>>
                     ELSE <<>>
   /\ ref' = RefFrame(ref, Rec.u, Rec.k)
+  \* an AddUser that gets no answer counts as failed after AnswerWaitMax at the latest and is then
+  \* retried after NetErrorDelay; a RemoveUser ends the obligation
+  /\ dueBy' = [dueBy EXCEPT ![Rec.u] = IF Rec.k = "add" /\ ~closing THEN Rec.t + AnswerWaitMax + NetErrorDelay ELSE -1]
   /\ UNCHANGED <<failT, closing>>
   /\ Busy /\ Hidden /\ Consume
 
@@ -80,6 +91,7 @@ TReply ==
   /\ IsEv("reply") /\ Rec.u \in Users
   /\ ref.attempt[Rec.u] = "open"
   /\ ref' = RefReply(ref, Rec.u, Rec.exists)
+  /\ dueBy' = [dueBy EXCEPT ![Rec.u] = IF Rec.exists \/ closing THEN -1 ELSE Rec.t + NoUserDelay]
   /\ UNCHANGED <<serverLog, failT, closing, lastRetry>>
   /\ Busy /\ Hidden /\ Consume
 
@@ -90,14 +102,18 @@ TEvt ==
   /\ IF Rec.st = "retry_pending"
        THEN /\ ref' = RefEvent(IF ref.attempt[Rec.u] = "open" THEN RefSilence(ref, Rec.u) ELSE ref, Rec.u, Rec.st)
             /\ failT' = [failT EXCEPT ![Rec.u] = Rec.t]
+            \* the failure is reported: from here the documented delay counts
+            /\ dueBy' = [dueBy EXCEPT ![Rec.u] = IF dueBy[Rec.u] < 0 THEN -1
+                                                   ELSE Rec.t + (IF Rec.msg = "notexists" THEN NoUserDelay ELSE NetErrorDelay)]
        ELSE /\ ref' = RefEvent(ref, Rec.u, Rec.st)
-            /\ UNCHANGED failT
+            /\ UNCHANGED <<failT, dueBy>>
   /\ UNCHANGED <<serverLog, closing, lastRetry>>
   /\ Busy /\ Hidden /\ Consume
 
 TClosing ==
   /\ IsEv("close")
   /\ closing' = TRUE
+  /\ dueBy' = NoDue
   /\ UNCHANGED <<ref, serverLog, failT, lastRetry>>
   /\ Busy /\ Hidden /\ Consume
 
@@ -105,6 +121,7 @@ TClosed ==
   /\ IsEv("closed")
   /\ closing
   /\ ref' = RefClose(ref)
+  /\ dueBy' = NoDue
   /\ UNCHANGED <<serverLog, failT, closing, lastRetry>>
   /\ Busy /\ Hidden /\ Consume
 
@@ -115,14 +132,14 @@ TQuiet ==
   /\ obsState' = [u \in Users |-> Rec.st[u]]
   /\ alive' = Rec.ntasks
   /\ settled' = \A u \in Users : ref.attempt[u] # "open"
-  /\ UNCHANGED <<ref, serverLog, failT, closing, lastRetry>>
+  /\ UNCHANGED <<ref, serverLog, failT, closing, lastRetry, dueBy>>
   /\ Hidden /\ Consume
 
 Done ==
   /\ l = Len(T) + 1
   /\ PrintT(<<"ACCEPT", tid, {}>>)
   /\ l' = l + 1
-  /\ UNCHANGED <<vars, tid, failT, closing, lastRetry>>
+  /\ UNCHANGED <<vars, tid, failT, closing, lastRetry, now, dueBy>>
 
 Finished == l = Len(T) + 2 /\ UNCHANGED tvars
 
@@ -141,6 +158,11 @@ RemoveOnlyOnFallC ==
 \* trace-level only (the design spec has no clock): a retry goes out exactly the documented delay
 \* after the failure was reported
 RetryAfterDocumentedDelay == lastRetry # <<>> => lastRetry[2] = lastRetry[3]
+\* bounded-time form of "failed attempts are retried after the documented delay while a reason remains":
+\* while the server is supposed to track u and has not confirmed it, the next AddUser is on the wire
+\* no later than the documented delay after the failure (was reported / must have been noticed) - after
+\* EVERY failed attempt, not only the first.  A RemoveUser, a confirmation or the close end the obligation.
+RetryHappens == \A u \in Users : dueBy[u] >= 0 => now <= dueBy[u] + Slack
 \* bounded liveness of the close itself: once activity settles the close has been delivered
 CloseCompletes == settled /\ closing => ref.closed
 
